@@ -111,12 +111,18 @@ var addrSymbols = []string{"a1", "a2", "a3", "a4", "a5", "a6", "a7", "a8", "x1",
 
 var domSymbols = []string{"d1", "d2", "d3", "d4", "d5"}
 
+// MixedCaseMint selects the configuration in which the chain's minting denom is mixed-case ("uUSDC").
+var MixedCaseMint bool
+
 func NewSymTab(seed int64, moduleAddr []byte, prefix string) *SymTab {
 	t := &SymTab{Seed: seed, Prefix: prefix, ModuleAdr: moduleAddr,
 		addr: map[string][]byte{}, addrRev: map[string]string{}, addrStr: map[string]string{}, strRev: map[string]string{},
 		dom: map[string]uint32{}, domRev: map[uint32]string{}, denom: map[string]string{}, denomRev: map[string]string{},
 		keyByName: map[string]*AttKey{}, attRev: map[string][2]string{}, k32Rev: map[string]string{}}
 	t.MintDenom = "uusdc"
+	if MixedCaseMint {
+		t.MintDenom = "uUSDC"
+	}
 	// unit of account: abstract amount i stands for i*Unit
 	// odd seeds (incl. the default) use a unit above 2^64 so that any 64-bit truncation of an amount is visible
 	switch ((seed % 4) + 4) % 4 {
@@ -175,10 +181,11 @@ func NewSymTab(seed int64, moduleAddr []byte, prefix string) *SymTab {
 		t.dom[s] = v
 		t.domRev[v] = s
 	}
-	for sym, str := range map[string]string{"MINT": t.MintDenom, "MINT_UP": strings.ToUpper(t.MintDenom),
-		"MINT_FOLD": strings.Replace(t.MintDenom, "s", "ſ", 1), "OTHER": "uatom", "OTHER_UP": "UATOM", "EMPTY": ""} {
+	for _, e := range [][2]string{{"MINT_LOW", strings.ToLower(t.MintDenom)}, {"MINT", t.MintDenom}, {"MINT_UP", strings.ToUpper(t.MintDenom)},
+		{"MINT_FOLD", strings.Replace(strings.Replace(t.MintDenom, "s", "ſ", 1), "S", "ſ", 1)}, {"OTHER", "uatom"}, {"OTHER_UP", "UATOM"}, {"EMPTY", ""}} {
+		sym, str := e[0], e[1]
 		t.denom[sym] = str
-		t.denomRev[str] = sym
+		t.denomRev[str] = sym // (with a lower-case minting denom MINT_LOW and MINT are one string: it reads back as MINT)
 		t.k32Rev[hex.EncodeToString(keccak([]byte(str)))] = sym
 	}
 	// attester keys, sorted by Ethereum address
